@@ -954,3 +954,7 @@ mod tests {
         );
     }
 }
+
+#[cfg(kani)]
+#[path = "/verif/kani/arrow-string/concat_elements.rs"]
+mod verif_kani;
